@@ -27,6 +27,15 @@ def identity_tables():
     return {"N": {n: str(n) for n in range(0, 12)}, "I": {n: str(n) for n in range(0, 12)}, "S": ID_ALNUM}
 
 
+def edge_tables():
+    """Boundary atoms: numerals around 2^31, 2^32, 2^53 and 2^62; identifiers made of the first and last letters of each case
+    (A, Z, a, z, 9) with the same ASCII order and case-collision structure as the identity pool."""
+    nums = [0, 9, 11, 2 ** 31 - 1, 2 ** 31, 2 ** 32 - 1, 2 ** 32, 2 ** 53, 2 ** 53 + 1, 2 ** 62 - 4, 2 ** 62 - 3, 2 ** 62 - 2]
+    ids = [0, 1, 9, 11, 99, 2 ** 15, 2 ** 16, 2 ** 30, 2 ** 31 - 5, 2 ** 31 - 4, 2 ** 31 - 3, 2 ** 31 - 2]     # the seeded tables stay in these ranges too
+    return {"N": {i: str(n) for i, n in enumerate(nums)}, "I": {i: str(n) for i, n in enumerate(ids)},
+            "S": ["--", "9z", "AZ", "Zz", "az", "azz", "azz-9", "m", "zz", "zzz"]}
+
+
 def seeded_tables(seed):
     """Strictly increasing numerals (0 fixed), some beyond 2^32 and near 2^62; random identifier pool with
     the same ASCII order and the same case-collision structure as the identity pool."""
@@ -96,7 +105,7 @@ def run_system(sysname, tier, seed, wdir, vh, workers):
     n = len(dom)
     rows = {x["i"]: x["r"] for x in vlib.read_ndjson(ref_raw)}
     vlib.write_ndjson(ref, [{"i": i, "r": rows.get(i, [])} for i in range(1, n + 1)])
-    passes = [("identity", identity_tables()), ("seed%d" % seed, seeded_tables(seed))]
+    passes = [("identity", identity_tables()), ("seed%d" % seed, seeded_tables(seed)), ("edge", edge_tables())]
     for d in dom:
         d["ctext"] = instantiate(d["text"], passes[0][1])
     out["dom"] = dom
